@@ -35,3 +35,7 @@ pub fn fnv(bytes: &[u8]) -> u64 {
     }
     h
 }
+
+pub fn serde_map() -> serde_json::Map<String, Value> {
+    serde_json::Map::new()
+}
